@@ -2,26 +2,41 @@ import MesaModel.Gen.FnSteps
 import MesaModel.Model.StepCounter
 /-!
 Equivalence of the definition GENERATED from mesa/model.py (`Gen/FnSteps.lean`, rewritten by `harness/py2lean.py` on every
-check) with the hand-written model `Model/StepCounter.lean` (C05).  The generated `wrapped_step` returns the list of values
-of `self.steps` the user's step was called with (one call: `self._user_step(*args, **kwargs)`) and the counter afterwards.
+check) with the hand-written model `Model/StepCounter.lean` (C05).  The generated `wrapped_step` returns the list of calls
+`self._user_step(*args, **kwargs)` it makes — (value of `self.steps` at the call, args, kwargs) — and the counter afterwards.
 -/
 namespace Mesa.Steps
 
-/-- `Model._wrapped_step` as generated = the model's `callStep`: the counter afterwards is `callStep`'s, and the user's step
-    (the override chain `runChain`) runs once, with the counter value the generated code calls it with. -/
+/-- what the effect list of the generated `_wrapped_step` means IN THE MODEL: every recorded call
+    `self._user_step(*a, **kw)`, made with the counter at `c`, runs the override chain of the instance with exactly these
+    positional arguments and this counter value (`runChain`); a call that raised (`false`) ends the list.  The model's
+    user steps take no keyword arguments, so `kw` is not interpreted (the equivalence is stated for `kw = []`). -/
+def interpCalls (h : Hier) (es : List (Int × List Int × List (Int × Int))) : List Entry × Bool :=
+  es.foldl (fun acc e => if acc.2 then (acc.1 ++ (runChain h 0 e.2.1 e.1.toNat).1, (runChain h 0 e.2.1 e.1.toNat).2) else acc)
+    ([], true)
+
+/-- `Model._wrapped_step` as generated = the model's `callStep`: interpreting the calls the generated text makes (counter
+    value AND forwarded `*args`, both taken from the generated term) in the model gives exactly what `callStep` records and
+    returns, and the counter afterwards is `callStep`'s. -/
 theorem C05_gen_wrapped_step_eq_model (i : Inst) (args : List Int) :
-    GenFn.wrapped_step ⟨(i.steps : Int)⟩ = ([((i.steps + 1 : Nat) : Int)], (((callStep i args).1.steps : Nat) : Int)) ∧
-    (callStep i args).2 = runChain i.hier 0 args (i.steps + 1) := by
-  refine ⟨?_, rfl⟩
-  simp only [GenFn.wrapped_step, callStep]
-  first
-    | (simp; done)
-    | (simp <;> omega)
+    interpCalls i.hier (GenFn.wrapped_step ⟨(i.steps : Int)⟩ args []).1 = (callStep i args).2 ∧
+    (GenFn.wrapped_step ⟨(i.steps : Int)⟩ args []).2 = (((callStep i args).1.steps : Nat) : Int) := by
+  have h : GenFn.wrapped_step ⟨(i.steps : Int)⟩ args [] = ([((i.steps : Int) + 1, args, [])], (i.steps : Int) + 1) := by
+    simp only [GenFn.wrapped_step]
+    first
+      | (simp; done)
+      | (simp <;> omega)
+  have ht : ((i.steps : Int) + 1).toNat = i.steps + 1 := by omega
+  rw [h]
+  refine ⟨?_, ?_⟩
+  · simp [interpCalls, callStep, ht]
+  · simp [callStep]
 
 /-- C05 about the code-derived text: one call of the generated `_wrapped_step` calls the user's step exactly once, with the
-    counter already advanced by exactly one, and leaves the counter at that value. -/
-theorem C05_increment_before_user_code_generated (s : Int) :
-    GenFn.wrapped_step ⟨s⟩ = ([s + 1], s + 1) := by
+    counter already advanced by exactly one, hands it exactly its own positional and keyword arguments, and leaves the
+    counter at that value. -/
+theorem C05_increment_before_user_code_generated (s : Int) (args : List Int) (kw : List (Int × Int)) :
+    GenFn.wrapped_step ⟨s⟩ args kw = ([(s + 1, args, kw)], s + 1) := by
   simp only [GenFn.wrapped_step]
   first
     | (simp; done)
